@@ -42,7 +42,10 @@ pub fn run(n: u64, mode: &str) {
             let op: String;
             let ret: bool;
             let protocol_pct = if mode == "draw" { 3 } else { 30 };
-            if roll >= protocol_pct || g.result().is_some() && roll >= 60 {
+            if g.result().is_none() && g.can_declare_draw() && rng.chance(1, 6) {
+                // a claim that must succeed
+                ret = g.declare_draw(); op = "d".to_string();
+            } else if roll >= protocol_pct || g.result().is_some() && roll >= 60 {
                 // a move attempt: mostly legal, sometimes illegal / random
                 let m = if legal.is_empty() || rng.chance(1, 8) {
                     ChessMove::new(sq(rng.below(64) as usize), sq(rng.below(64) as usize), if rng.chance(1, 6) { code_promo(1 + rng.below(4) as u8) } else { None })
@@ -56,7 +59,11 @@ pub fn run(n: u64, mode: &str) {
                     let pool = if quiet.is_empty() || (force_pawn_at.is_none() && rng.chance(1, 40)) { legal.clone() } else { quiet };
                     let back: Vec<ChessMove> = pool.iter().cloned().filter(|m| { let nb = pos.make_move_new(*m); seen.iter().any(|s| *s == nb) }).collect();
                     if !back.is_empty() && rng.chance(3, 5) { *rng.pick(&back) } else { *rng.pick(&pool) }
-                } else { biased_move(&pos, &mut rng).unwrap_or(legal[0]) };
+                } else {
+                    // finish the game when a mate is on the board, half of the time
+                    let mates: Vec<ChessMove> = legal.iter().cloned().filter(|m| pos.make_move_new(*m).status() == BoardStatus::Checkmate).collect();
+                    if !mates.is_empty() && rng.chance(1, 2) { *rng.pick(&mates) } else { biased_move(&pos, &mut rng).unwrap_or(legal[0]) }
+                };
                 ret = g.make_move(m);
                 if ret { seen.push(g.current_position()); }
                 op = format!("m{}", mv_str(&m).replace(',', "/"));
